@@ -862,3 +862,100 @@ func ruleC01Counters(p *Prog, a *Anchors, r *Report) {
 		r.Unk("none", "-", "no function derives an ExecutionContext from another one (or the context has no integer counter)")
 	}
 }
+
+// R-C01-RUNEGUARD. len(s) of a string counts bytes, len([]rune(s)) characters, and bytes ≥ characters. A bound that
+// was tested against the byte length says nothing about the rune slice: []rune(s)[:k] behind `len(s) > k` panics
+// (slice bounds out of range) for multi-byte text whose character count is below k. Decided for every slice of a
+// rune slice converted from a string, whose bound is not constant: some length test of the rune slice itself (or a
+// character count: utf8.RuneCountInString) must guard it; a test of the string's byte length does not count.
+func ruleC01RuneGuard(p *Prog, a *Anchors, r *Report) {
+	r.Begin("R-C01-RUNEGUARD", "a rune slice converted from a string is sliced with a non-constant bound only behind a test of ITS length (characters), not merely of the string's byte length", 1)
+	reach := a.ExecReach()
+	n := 0
+	count := map[string]int{}
+	for _, f := range p.inPkgFuncsSorted(p.allFuncSet()) {
+		if !reach[f] && !reach[topLevel(f)] {
+			continue
+		}
+		for _, b := range f.Blocks {
+			for _, in := range b.Instrs {
+				sl, ok := in.(*ssa.Slice)
+				if !ok || !isRuneSlice(sl.X.Type()) {
+					continue
+				}
+				cv, ok := sl.X.(*ssa.Convert)
+				if !ok || !isStringType(cv.X.Type()) {
+					continue
+				}
+				var bounds []ssa.Value
+				for _, bd := range []ssa.Value{sl.Low, sl.High} {
+					if bd == nil {
+						continue
+					}
+					if _, isK := constInt(bd); !isK {
+						bounds = append(bounds, bd)
+					}
+				}
+				if len(bounds) == 0 {
+					continue
+				}
+				lenOf := func(v ssa.Value, of ssa.Value) bool {
+					c, ok := v.(*ssa.Call)
+					if !ok {
+						return false
+					}
+					if bi, isB := c.Common().Value.(*ssa.Builtin); isB && bi.Name() == "len" {
+						arg := c.Common().Args[0]
+						return arg == of || p.VN(arg) == p.VN(of)
+					}
+					return false
+				}
+				charCount := func(v ssa.Value) bool {
+					if lenOf(v, sl.X) {
+						return true
+					}
+					if c, ok := v.(*ssa.Call); ok && c.Common().StaticCallee() != nil {
+						nm := p.extName(c.Common().StaticCallee())
+						if (nm == "unicode/utf8.RuneCountInString" || nm == "unicode/utf8.RuneCount") && len(c.Common().Args) == 1 {
+							return true
+						}
+					}
+					return false
+				}
+				runeGuard, byteGuard := false, false
+				eachDominatingCond(in, func(cond ssa.Value, pol bool) bool {
+					bo, ok := cond.(*ssa.BinOp)
+					if !ok {
+						return false
+					}
+					for _, side := range []ssa.Value{bo.X, bo.Y} {
+						if charCount(side) {
+							runeGuard = true
+						}
+						if lenOf(side, cv.X) {
+							byteGuard = true
+						}
+					}
+					return false
+				})
+				n++
+				key := p.FuncName(f) + ":[]rune slice"
+				count[key]++
+				if count[key] > 1 {
+					key += "#" + itoa(int64(count[key]))
+				}
+				switch {
+				case runeGuard:
+					r.OK(key, p.InstrPos(in), "guarded by a test of the rune slice's own length")
+				case byteGuard:
+					r.Bad(key, p.InstrPos(in), "[]rune(%s) is sliced with %s behind a test of len(%s) only — the byte length, which is larger than the character count for multi-byte text: the slice expression panics (bounds out of range) for such input", p.VN(cv.X), p.VN(bounds[0]), p.VN(cv.X))
+				default:
+					r.Assume(key, p.InstrPos(in), "no length test of either representation dominates the slice; the bound is assumed to be derived from the rune slice")
+				}
+			}
+		}
+	}
+	if n == 0 {
+		r.Trivial("none", "-", "no rune slice converted from a string is sliced with a non-constant bound")
+	}
+}
